@@ -25,6 +25,7 @@ func TestMain(m *testing.M) {
 	vh.Assume("server packets carry type RESPONSE on channel 0 with EOM on the last packet; non-informational EED only between statements (the library resolves a row's format through the last delivered package); a DONE-family package with status 0 only as the last delivered package; responses are kept short (strings <= 40 bytes) so that cut sets can be enumerated")
 	vh.Rule("also: Info.DebugLogPackages is on in a quarter of the cases (every package is printed while it is sent / received)")
 	vh.QuietLog()
+	vh.Rule("also: a channel that has already delivered an earlier response; header-only control packets (PROTACK) between the fragments; 2..3 channels of ONE connection whose response packets arrive interleaved packet by packet in a generated order (each channel delivers what its response delivers alone and unfragmented). Non-trivial there: a packet of another channel arrives inside a message")
 	vh.Main(m, "C02")
 }
 
